@@ -16,6 +16,8 @@ CONSTANTS
   AllowReuse = FALSE
   AllowLin3 = FALSE
   AllowDrop = FALSE
+  AllowBnShare = FALSE
+  PlainOps = {"relu", "pool", "flat", "add"}
   AllowFindings = TRUE
   MaxHist = 2
 VIEW ViewNoHist
